@@ -338,7 +338,7 @@ def _tail_records(trace, n):
 
 
 # ---------------------------------------------------------------------------- fixtures
-def curved_files(ctx, n):
+def curved_files(ctx, n, nonsimple=False):
     """Seeded curved worlds (worlds.py curved_world: spheres / cylinders inside boxes placed with arbitrary
     rotations, reflections and translations, up to three levels), built through orangeinp by `vnav dump`
     and written as ordinary .org.json files for the fixture pipeline."""
@@ -347,7 +347,7 @@ def curved_files(ctx, n):
     os.makedirs(d, exist_ok=True)
     out = []
     for i in range(n):
-        w = W.curved_world(ctx.seed + i)
+        w = W.curved_world(ctx.seed + i, nonsimple)
         src = os.path.join(d, w["name"] + ".json")
         dst = os.path.join(d, w["name"] + ".org.json")
         with open(src, "w") as fh:
@@ -392,6 +392,7 @@ def fixtures(ctx, prefixes, nrays, nwalks, nprobes, nturns=0, maxpar=8, nshards=
     per = lambda tot: max(1, (tot + n - 1) // n) if tot else 0
     boost = {}
     tboost = {}
+    pboost = {}
     jobs = []
     for i, f in enumerate(usable):
         # the feature of finding F-NAV-2 (a daughter held by a volume whose logic is a union) gets 8x the
@@ -400,6 +401,8 @@ def fixtures(ctx, prefixes, nrays, nwalks, nprobes, nturns=0, maxpar=8, nshards=
         boost[f] = 8 if _union_boundary_feature(jf) else 1
         # curved surfaces inside a daughter universe: where set_dir's normal depends on the LOCAL position
         tboost[f] = 6 if _curved_daughter_feature(jf) else 1
+        # surfaces without a simple safety distance (cones, quadrics): more safety probes
+        pboost[f] = 6 if _nonsimple_feature(jf) else 1
         # the two geocel/orange duplicates get different seeds
         base = "%02d_%s" % (i, os.path.basename(f).replace(".org.json", ""))
         jobs.append((f, base, ctx.path(base + ".raw.ndjson"), ctx.path(base + ".ann.ndjson")))
@@ -409,8 +412,21 @@ def fixtures(ctx, prefixes, nrays, nwalks, nprobes, nturns=0, maxpar=8, nshards=
         focus = raw.replace(".raw.ndjson", ".focus.json")
         with open(focus, "w") as fh:
             json.dump(_focus_boxes(json.load(open(f))), fh)
+        planf = raw.replace(".raw.ndjson", ".plan.json")
+        nplan = pboost[f] * per(nprobes)
+        if nplan:
+            # probe points near the surrounding surfaces + ray directions aimed at their nearest points,
+            # computed from the geometry file alone by the independent oracle
+            pr = subprocess.run([VT_PY, os.path.join(vlib.ROOT, "tools", "navfacts.py"), "plan", f,
+                                 str(ctx.seed + 31 * (jobs.index(job) + 1)), str(nplan), planf],
+                                stdout=subprocess.PIPE, stderr=subprocess.PIPE, text=True, timeout=3000)
+            if pr.returncode != 0:
+                return ("oracle", pr.returncode, pr.stderr[-1500:])
+        else:
+            with open(planf, "w") as fh:
+                fh.write("[]")
         r = _run_vnav(["fixture", f, ctx.seed + 17 * (jobs.index(job) + 1), boost[f] * per(nrays), boost[f] * per(nwalks),
-                       per(nprobes), tboost[f] * per(nturns), raw, focus], 1200)
+                       per(nprobes), tboost[f] * per(nturns), raw, focus, planf], 1200)
         if r.returncode != 0:
             return ("harness", r.returncode, (r.stderr or "")[-1500:])
         a = subprocess.run([VT_PY, os.path.join(vlib.ROOT, "tools", "navfacts.py"), f, raw, ann],
@@ -572,6 +588,14 @@ def _fixture_feature(raw, rel):
     while k > 0 and rr[k].get("e") != "Init":
         k -= 1
     return classify(rr[k:rel])
+
+
+def _nonsimple_feature(j):
+    for u in j.get("universes", []):
+        sf = u.get("surfaces")
+        if isinstance(sf, dict) and any(t in ("kx", "ky", "kz", "sq", "gq") for t in sf.get("types", [])):
+            return True
+    return False
 
 
 def _curved_daughter_feature(j):
